@@ -296,7 +296,7 @@ PROPS["C14"] = dict(
                "macros (FIFO link records, NetworkToggle, PerfectFD, LeaderElection, NetworkBufferLength, Channel, two-level fs). Who steps, every either branch and "
                "every crash (the mayFail choice, at every label boundary that has one, while another replica is alive) are rapid draws. After every commit the spec's "
                "ConsistencyOK is evaluated over fs and the program counters; no assertion may fail; the acknowledged client history must be linearizable.",
-    level_note="Perfect failure detector as in the spec; crashes happen where the spec allows them (mayFail). Schedules are sampled (<=1200 attempts).",
+    level_note="Perfect failure detector as in the spec; crashes happen where the spec allows them (mayFail). The environment refuses writes and pre-commits with drawn probabilities (the section must abort and retry). Schedules are sampled (<=1200 attempts).",
     rule="drawn configuration, request stream, crash rate and schedule; non-trivial = the primary crashed between sending replication requests and answering "
          "(sndReplicaReqLoop / rcvReplicaRespLoop) and a backup later took over with shouldSync; distinct by rendered schedule.",
     runs=[
